@@ -568,12 +568,17 @@ class SpsProxy:
         return real(arg1, shape=shape, dtype=dtype, copy=copy)
 
     def _dia_matrix(self, arg1, shape=None, dtype=None, copy=False):
-        if Session.active and isinstance(arg1, tuple) and is_objarr(_np.asarray(arg1[0]) if not isinstance(arg1[0], _np.ndarray) else arg1[0]) and has_sym(_np.asarray(arg1[0], dtype=object)):
+        if Session.active and isinstance(arg1, tuple) and len(arg1) == 2:
             data, offsets = arg1
-            data = _np.asarray(data, dtype=object)
-            if _np.asarray(offsets).ravel().tolist() != [0]:
-                raise NotImplementedError("dia_matrix with offsets")
-            return self.diags(data.ravel()[: shape[0]] if shape else data.ravel(), 0, format="dia")
+            darr = data if isinstance(data, _np.ndarray) else _np.asarray(data)
+            if darr.dtype == object:
+                if not has_sym(darr):
+                    return _sps.dia_matrix((unlift(darr), offsets), shape=shape)
+                if _np.asarray(offsets).ravel().tolist() != [0]:
+                    raise NotImplementedError("dia_matrix with offsets")
+                d = darr.ravel()
+                n = shape[0] if shape else len(d)
+                return self.diags(d[:n].view(SymArr), 0, format="dia")
         return _sps.dia_matrix(arg1, shape=shape, dtype=dtype, copy=copy)
 
     def _blocks(self, blocks):
